@@ -166,7 +166,11 @@ class Check:
             "tlc_jobs": self.tlc_jobs, "known_findings_matched": known_ids,
         }
         if self.exhaustive is not None:
-            cov["exhaustive"] = self.exhaustive
+            if isinstance(self.exhaustive, bool):
+                cov["exhaustive"] = self.exhaustive
+            else:   # a driver described WHAT was enumerated completely: keep the description, flag the fact
+                cov["exhaustive"] = bool(self.exhaustive)
+                cov["exhaustive_scope"] = self.exhaustive
         cov.update(self.extra)
         ev = {"property_id": self.pid, "tier": self.tier, "seed": int(self.seed),
               "level": "model_checking", "coverage": cov, "assumptions": self.assumptions,
